@@ -1,39 +1,77 @@
 ------------------------------- MODULE TraceL --------------------------------
 (***************************************************************************)
-(* Validation of upstream connection life cycles on a real node (harness   *)
-(* cmd/peng, mode c16) against the invariants of Lifecycle.tla.            *)
-(* A Life line is written at quiescence after an event (connect, client    *)
-(* close, go-away, request, network drop, shedding, server shutdown): it   *)
-(* lists every listener with its endpoint and client-side state, and what  *)
-(* was read from the node: the manager's registry, the open sessions, the  *)
-(* local routing entry and the published gossip keys.                      *)
+(* Validation of upstream connection life cycles recorded from a real node *)
+(* (harness cmd/peng, mode c16) against Lifecycle.tla.                     *)
+(* A Life line is one command of the scenario driver (listen, go-away,     *)
+(* client close, request with its status and the listener that served it,  *)
+(* network drop, drop with a request in flight, shedding, server stop) and *)
+(* what was read from the node once it was quiescent again: the manager's  *)
+(* registry, the open sessions, the local routing entry, the published     *)
+(* gossip keys (all as counts per endpoint).                               *)
+(* The registry is observed as counts, so the specification's state is not *)
+(* determined by a line: cands is the set of specification states that     *)
+(* explain everything observed so far, advanced with the transition        *)
+(* functions of LifecycleOps.tla (layer A: when no state explains a line,  *)
+(* drift is counted and cands is rebuilt from the observation).            *)
+(* Which connections are open is known exactly (the driver's own commands) *)
+(* and equal in every candidate: the property is judged on the observation *)
+(* against that (layer B, ObsViolations).                                  *)
 (* An Expiry line reports when the server closed a connection whose token  *)
 (* expires, relative to that expiry.                                       *)
 (***************************************************************************)
-EXTENDS Integers, Sequences, FiniteSets, Json, TLC
+EXTENDS LifecycleOps, Sequences, Json, TLC
 
 Log == ndJsonDeserialize("trace.ndjson")
 
-VARIABLES l, viol
-tvars == <<l, viol>>
+VARIABLES l, viol, drift, cands
+tvars == <<l, viol, drift, cands>>
 
-ECOf(arr) == [x \in {arr[i].e : i \in DOMAIN arr} |-> arr[CHOOSE i \in DOMAIN arr : arr[i].e = x].c]
+Cnt(arr, ep) ==
+  IF \E i \in DOMAIN arr : arr[i].e = ep THEN arr[CHOOSE i \in DOMAIN arr : arr[i].e = ep].c ELSE 0
+Known(arr) == \A i \in DOMAIN arr : arr[i].e \in Eps \/ arr[i].c = 0
 
-\* Lifecycle.tla at quiescence: registered = connections that are open or announced go-away and were not yet
-\* dropped by the proxy; sessions = connections not closed; advertised = registered
-Registered(lst) ==
-  LET idx(e) == {i \in DOMAIN lst : lst[i].e = e /\ lst[i].st \in {"connected", "goaway"}}
-      eps == {lst[i].e : i \in {j \in DOMAIN lst : lst[j].st \in {"connected", "goaway"}}}
-  IN [e \in eps |-> Cardinality(idx(e))]
-Sessions(lst) == Cardinality({i \in DOMAIN lst : lst[i].st # "closed"})
+\* every outcome the command can have
+Loose(s, e) ==
+  CASE e.ev = "listen" -> IF ListenOK(s, e.c) THEN {ListenF(s, e.c)} ELSE {}
+    [] e.ev = "goaway" -> IF GoAwayOK(s, e.c) THEN {GoAwayF(s, e.c)} ELSE {}
+    [] e.ev = "close" -> IF EndOK(s, e.c, "client-close") THEN {FinishF(s, e.c, "client-close")} ELSE {}
+    [] e.ev \in {"drop", "drop-inflight"} -> IF EndOK(s, e.c, "drop") THEN {FinishF(s, e.c, "drop")} ELSE {}
+    [] e.ev = "request" -> RequestSucc(s, e.e)
+    [] e.ev = "shed" -> ShedSucc(s)
+    [] e.ev = "stop" -> {StopF(s)}
+    [] OTHER -> {s}
 
-LifeViolations(e) ==
-  (IF ECOf(e.reg) # Registered(e.lst) THEN {"RegistryIsOpenConns"} ELSE {})
-  \cup (IF e.sess # Sessions(e.lst) THEN {"SessionsAreHandlers"} ELSE {})
-  \cup (IF ECOf(e.adv) # ECOf(e.reg) THEN {"AdvMatchesReg"} ELSE {})
-  \cup (IF ECOf(e.gos) # ECOf(e.adv) THEN {"PublishedMatchesAdvertised"} ELSE {})
-  \cup (IF Sessions(e.lst) = 0 /\ (e.reg # <<>> \/ e.adv # <<>> \/ e.gos # <<>> \/ e.sess # 0)
+\* the logged outcome of a request: 200 from an open registered upstream of the endpoint, or 502 because the
+\* upstream picked had announced go-away (and is removed) or because none is registered
+OutcomeOK(s, t, e) ==
+  IF e.ev # "request" THEN TRUE
+  ELSE IF e.status = 200
+       THEN t = s /\ e.served \in s.reg /\ s.cst[e.served] = "open" /\ Ep(e.served) = e.e
+       ELSE IF e.status = 502
+            THEN t # s \/ {c \in s.reg : Ep(c) = e.e} = {}
+            ELSE FALSE
+
+Matches(t, e) ==
+  /\ \A ep \in Eps : Cnt(e.reg, ep) = CountOn(t.reg, ep) /\ Cnt(e.adv, ep) = t.adv[ep]
+  /\ e.sess = Cardinality(t.sess)
+
+\* every registry consistent with the observation
+Rebase(t, e) ==
+  LET rs == {R \in SUBSET AliveSet(t) : \A ep \in Eps : CountOn(R, ep) = Cnt(e.reg, ep)} IN
+  IF rs = {} THEN {t} ELSE {[t EXCEPT !.reg = R, !.adv = [ep \in Eps |-> Cnt(e.adv, ep)]] : R \in rs}
+
+\* Layer B.  t: any candidate (they agree on which connections are open)
+ObsViolations(t, e) ==
+  (IF e.sess # Cardinality(AliveSet(t)) THEN {"SessionsAreHandlers"} ELSE {})
+  \cup (IF \E ep \in Eps : Cnt(e.reg, ep) < CountOn(OpenSet(t), ep) \/ Cnt(e.reg, ep) > CountOn(AliveSet(t), ep)
+        THEN {"RegistryIsOpenConns"} ELSE {})
+  \cup (IF \E ep \in Eps : Cnt(e.adv, ep) # Cnt(e.reg, ep) THEN {"AdvMatchesReg"} ELSE {})
+  \cup (IF \E ep \in Eps : Cnt(e.gos, ep) # Cnt(e.adv, ep) THEN {"PublishedMatchesAdvertised"} ELSE {})
+  \cup (IF ~Known(e.reg) \/ ~Known(e.adv) \/ ~Known(e.gos) THEN {"UnknownEndpoint"} ELSE {})
+  \cup (IF AliveSet(t) = {} /\ (e.sess # 0 \/ \E ep \in Eps : Cnt(e.reg, ep) + Cnt(e.adv, ep) + Cnt(e.gos, ep) # 0)
         THEN {"AllGoneAdvertisesNothing"} ELSE {})
+  \cup (IF e.ev = "request" /\ e.status = 200 /\ (e.served \notin Conn \/ (e.served \in Conn /\ ~AliveIn(t, e.served)))
+        THEN {"ServedByClosedConnection"} ELSE {})
 
 ExpiryViolations(e) ==
   IF e.disabled
@@ -41,19 +79,30 @@ ExpiryViolations(e) ==
   ELSE (IF e.deltaMs < -150 THEN {"NotClosedBeforeExpiry"} ELSE {})
        \cup (IF e.deltaMs > 700 THEN {"ClosedAtExpiry"} ELSE {})
 
-TraceInit == l = 1 /\ viol = {}
+TraceInit == l = 1 /\ viol = {} /\ drift = 0 /\ cands = {InitState}
 TraceNext ==
   /\ l <= Len(Log)
   /\ l' = l + 1
   /\ LET e == Log[l] IN
-     viol' = IF e.op = "Life" THEN LifeViolations(e)
-             ELSE IF e.op = "Expiry" THEN ExpiryViolations(e)
-             ELSE {}
+     IF e.op = "Reset" THEN cands' = {InitState} /\ viol' = {} /\ drift' = drift
+     ELSE IF e.op = "Expiry" THEN cands' = cands /\ viol' = ExpiryViolations(e) /\ drift' = drift
+     ELSE LET loose == UNION {Loose(s, e) : s \in cands}
+              good == UNION {{t \in Loose(s, e) : OutcomeOK(s, t, e) /\ Matches(t, e)} : s \in cands}
+              nxt == IF good # {} THEN good
+                     ELSE IF loose # {} THEN UNION {Rebase(t, e) : t \in loose}
+                     ELSE cands
+          IN /\ cands' = nxt
+             /\ drift' = drift + (IF good # {} THEN 0 ELSE 1)
+             /\ viol' = ObsViolations(CHOOSE t \in nxt : TRUE, e)
 TraceSpec == TraceInit /\ [][TraceNext]_tvars
 
 NoStepViolation == viol = {}
+\* the candidates are states of Lifecycle.tla: its invariants hold in each
+CandidatesWellFormed ==
+  \A s \in cands : /\ RegSubsetSessP(s) /\ AdvMatchesRegP(s) /\ RegistryIsOpenConnsP(s)
+                   /\ AllGoneAdvertisesNothingP(s) /\ SessionsAreHandlersP(s)
 Consumed ==
   /\ PrintT(<<"TRACE-RESULT", TLCGet("stats").diameter - 1, Len(Log)>>)
   /\ TLCGet("stats").diameter - 1 = Len(Log)
-DriftReport == l <= Len(Log) \/ PrintT(<<"TRACE-COUNTERS", 0, 0, 0>>)
+DriftReport == l <= Len(Log) \/ PrintT(<<"TRACE-COUNTERS", drift, 0, 0>>)
 =============================================================================
